@@ -150,6 +150,7 @@ structure World where
   ended : Bool := false
   cov : List (String × Nat) := []            -- how often each property's trigger occurred (coverage, not a verdict)
   vacantSince : List (String × Nat) := []   -- keys without a live record, since when (C06)
+  vacantOutside : List String := []         -- keys whose record an outside party removed (until somebody leads again)
   ownerSince : List (String × Int × Nat) := []  -- per key: id in the live record (map view) and since when it has been that id
   deriving Repr, Inhabited
 
